@@ -54,11 +54,41 @@ def tier_config(tier):
 
 def generate(rng, tier, run, seed=0):
     if run % 3 != 2:
-        case = _c05.gen_case(rng, run, tier, alphabet=WL.HOSTILE_X12, fault_alphabet=WL.HOSTILE_X12)
+        if rng.random() < 0.12:
+            # a file whose interchanges differ in version (4010 and 5010, either order): same delimiters throughout
+            a = _c05.gen_case(rng, run, tier)
+            b = _c05.gen_case(rng, run + 11, tier)
+            if 'doc' in a and 'doc' in b:
+                d = ['~', '*', ':']
+                for c in (a, b):
+                    c['delims'], c['eol'] = d, '\n'
+                if rng.random() < 0.5:
+                    a, b = b, a
+                case = dict(a, arm='mixed', second=b, charset='E')
+                case['cfg']['sinks'] = ['ack']
+                return case
+        plain = rng.random() < 0.3
+        case = _c05.gen_case(rng, run, tier, alphabet=None if plain else WL.HOSTILE_X12, fault_alphabet=None if plain else WL.HOSTILE_X12)
         case['arm'] = 'hostile'
         if 'doc' in case:
             # the source must not use ~ * : itself when its data contain them: pick_delims already avoids data characters
             case['cfg']['sinks'] = ['ack']
+            if plain and case['entry']['icvn'] == '00501':
+                # a 5010 source whose repetition separator is one of the acknowledgement's own delimiters
+                data = set()
+                for s_ in case['doc']:
+                    for i, v in enumerate(s_['vals']):
+                        if s_['id'] == 'ISA' and i in (10, 15):
+                            continue
+                        for x in (v if isinstance(v, list) else [v]):
+                            data.update(x)
+                cands = [c for c in ['*', ':', '~', '!', '`'] if c not in case['delims'] and c not in data]
+                if cands:
+                    rep = rng.choice(cands)
+                    for s_ in case['doc']:
+                        if s_['id'] == 'ISA' and len(s_['vals']) > 10:
+                            s_['vals'][10] = rep
+                    case['rep'] = rep
         return case
     case = _c07.generate(rng, tier, run, seed)
     case['arm'] = 'structural'
@@ -216,8 +246,13 @@ def execute(case):
         out.digest = log.digest()
         return out
     arm = case.get('arm')
-    if arm == 'hostile':
+    if arm in ('hostile', 'mixed'):
         text = _c05.case_text(case)
+        if arm == 'mixed':
+            text += _c05.case_text(case['second'])
+            out.fault('mixed-versions')
+        if case.get('rep'):
+            out.fault('exotic-repetition:' + case['rep'])
         for f in case['faults']:
             out.fault(f['kind'])
     else:
@@ -236,7 +271,7 @@ def execute(case):
         out.probe('ack-written')
         a = check_ack(sink, r, out, log, arm)
     key = '%s|%s|%s|%s' % (arm, case.get('map') or case['entry']['file'], a.kind if a else 'none',
-                           ','.join(sorted('%s%s' % (e.level, e.code) for e in r.errors))[:120] if arm == 'hostile'
+                           ','.join(sorted('%s%s' % (e.level, e.code) for e in r.errors))[:120] if arm in ('hostile', 'mixed')
                            else ','.join(sorted(set(case['faults']))))
     out.cover.add(key)
     out.info['knobs'] = {'arm': arm}
